@@ -93,6 +93,7 @@ impl SubRule {
         let mut cur_index = SegPos::new(0, 0);
         // TODO(girv): `$ > *` or any broad deletion rule without context/exception should  give a warning to the user
         loop {
+            #[cfg(feature = "verif")] crate::verif::tick(100);
             self.alphas.borrow_mut().clear();
             self.variables.borrow_mut().clear();
             let (res, mut next_index) = self.input_match_at(&word, cur_index)?;
@@ -107,6 +108,7 @@ impl SubRule {
                         // So that long vowels work
                         let mut seg_len = word.seg_length_at(sp);
                         while seg_len > 1 {
+                            #[cfg(feature = "verif")] crate::verif::tick(101);
                             sp.increment(&word);
                             seg_len -= 1;
                         }
@@ -159,6 +161,7 @@ impl SubRule {
         };
         let mut si = 0;
         while si < states.len() {
+            #[cfg(feature = "verif")] crate::verif::tick(102);
             if !self.context_match(states, &mut si, word_rev, &mut start_pos, false, ins_match_before)? {
                 is_match = false;
                 if is_context { break; }
@@ -181,6 +184,7 @@ impl SubRule {
         };
         let mut si = 0;
         while si < states.len() {
+            #[cfg(feature = "verif")] crate::verif::tick(103);
             if !self.context_match(states, &mut si, word, &mut start_pos, true, ins_match_before)? {
                 is_match = false;
                 if is_context { break; }
@@ -331,6 +335,7 @@ impl SubRule {
         pos.increment(word);
 
         while pos.syll_index == syll_index {
+            #[cfg(feature = "verif")] crate::verif::tick(104);
             let back_pos = *pos;
             let back_index = *index;
             let back_alphas = self.alphas.borrow().clone();
@@ -338,6 +343,7 @@ impl SubRule {
             
             let mut m = true;
             while *index < items.len() {
+                #[cfg(feature = "verif")] crate::verif::tick(105);
                 if pos.syll_index != syll_index {
                     m = false;
                     break;
@@ -387,6 +393,7 @@ impl SubRule {
         pos.increment(word);
 
         while word.in_bounds(*pos) {
+            #[cfg(feature = "verif")] crate::verif::tick(106);
             let back_pos = *pos;
             let back_state = *state_index;
             let back_alphas = self.alphas.borrow().clone();
@@ -394,6 +401,7 @@ impl SubRule {
 
             let mut m = true;
             while *state_index < states.len() {
+                #[cfg(feature = "verif")] crate::verif::tick(107);
                 if !self.context_match(states, state_index, word, pos, forwards, false)? {
                     m = false;
                     break;
@@ -416,6 +424,7 @@ impl SubRule {
     fn match_opt_states(&self, opt_states: &[Item], word: &Word, pos: &mut SegPos, forwards: bool) -> Result<bool, RuleRuntimeError> {
         let mut si = 0;
         while si < opt_states.len() {
+            #[cfg(feature = "verif")] crate::verif::tick(108);
             if !self.context_match(opt_states, &mut si, word, pos, forwards, false)? {
                 return Ok(false)
             }
@@ -433,6 +442,7 @@ impl SubRule {
         
         let mut index = 0;
         while index < match_min {
+            #[cfg(feature = "verif")] crate::verif::tick(109);
             if !self.match_opt_states(opt_states, word, pos, forwards)? {
                 *pos = back_pos;
                 *self.alphas.borrow_mut() = back_alphas;
@@ -450,6 +460,7 @@ impl SubRule {
 
         let mut m = true;
         while *state_index < states.len() {
+            #[cfg(feature = "verif")] crate::verif::tick(110);
             if !self.context_match(states, state_index, word, pos, forwards, false)? {
                 m = false;
                 break;
@@ -467,10 +478,12 @@ impl SubRule {
         
         let max = match_max.unwrap_or(usize::MAX);
         while index < max {
+            #[cfg(feature = "verif")] crate::verif::tick(111);
             *state_index = back_state;
             if self.match_opt_states(opt_states, word, pos, forwards)? {
                 let mut m = true;
                 while *state_index < states.len() {
+                    #[cfg(feature = "verif")] crate::verif::tick(112);
                     if !self.context_match(states, state_index, word, pos, forwards, false)? {
                         m = false;
                         break;
@@ -611,6 +624,7 @@ impl SubRule {
             }
             let mut seg_length = word.seg_length_at(*pos);            
             while seg_length >= 1 {
+                #[cfg(feature = "verif")] crate::verif::tick(113);
                 pos.increment(word);
                 seg_length -= 1;
             }
@@ -777,6 +791,7 @@ impl SubRule {
 
                 let mut pos = SegPos::new(0, 0);
                 while res_word.in_bounds(pos) {
+                    #[cfg(feature = "verif")] crate::verif::tick(114);
                     self.alphas.borrow_mut().clear();
                     self.variables.borrow_mut().clear();
                     match self.insertion_match(&res_word, pos)? {
@@ -884,12 +899,14 @@ impl SubRule {
         
         // FIXME: This is scuffed
         'outer: while word.in_bounds(start_pos) {
+            #[cfg(feature = "verif")] crate::verif::tick(115);
             match self.insertion_after(bef_states, word, start_pos)? {
                 Some(mut ins_pos) => {
                     let mut pos = ins_pos;
                     let mut state_index = 0;
                     start_pos = ins_pos;
                     while state_index < aft_states.len() {
+                        #[cfg(feature = "verif")] crate::verif::tick(116);
                         if !self.context_match(aft_states, &mut state_index, word, &mut pos, true, false)? {
                             match bef_states.last().unwrap().kind {
                                 ParseElement::WordBound => return Ok(None),
@@ -933,6 +950,7 @@ impl SubRule {
         }
 
         while word.in_bounds(cur_pos) {
+            #[cfg(feature = "verif")] crate::verif::tick(117);
             if self.context_match(states, &mut state_index, word, &mut cur_pos, true, false)? {
                 if state_index >= states.len() - 1 {
                     return Ok(Some(cur_pos))
@@ -976,6 +994,7 @@ impl SubRule {
         let mut match_begin = None;
 
         while word.in_bounds(cur_pos) {
+            #[cfg(feature = "verif")] crate::verif::tick(118);
             let before_pos = cur_pos;
             if self.context_match(states, &mut state_index, word, &mut cur_pos, true, true)? {
                 if match_begin.is_none() {
@@ -1056,6 +1075,7 @@ impl SubRule {
                     let first_syll = res_word.syllables.get_mut(pos.syll_index).unwrap();
 
                     while first_syll.segments.len() > pos.seg_index {
+                        #[cfg(feature = "verif")] crate::verif::tick(119);
                         second_syll.segments.push_front(first_syll.segments.pop_back().unwrap());
                     }
 
@@ -1086,6 +1106,7 @@ impl SubRule {
                     let syll = res_word.syllables.get_mut(pos.syll_index).expect("pos should not be out of bounds");
 
                     while syll.segments.len() > pos.seg_index {
+                        #[cfg(feature = "verif")] crate::verif::tick(120);
                         new_syll.segments.push_front(syll.segments.pop_back().unwrap());
                     }
                     res_word.syllables.insert(pos.syll_index+1, new_syll);
@@ -1114,6 +1135,7 @@ impl SubRule {
                     new_syll.tone = old_syll.tone;
 
                     while old_syll.segments.len() > pos.seg_index {
+                        #[cfg(feature = "verif")] crate::verif::tick(121);
                         new_syll.segments.push_front(old_syll.segments.pop_back().unwrap());
                     }
 
@@ -1167,6 +1189,7 @@ impl SubRule {
                                     let before_syll = res_word.syllables.get_mut(pos.syll_index).unwrap();
                                     let mut after_syll = Syllable::new();
                                     while before_syll.segments.len() > pos.seg_index {
+                                        #[cfg(feature = "verif")] crate::verif::tick(122);
                                         after_syll.segments.push_front(before_syll.segments.pop_back().unwrap());
                                     }
                                     res_word.syllables.insert(pos.syll_index+1, after_syll);
@@ -1362,6 +1385,7 @@ impl SubRule {
                             new_syll.tone = old_syll.tone;
 
                             while old_syll.segments.len() > sp.seg_index {
+                                #[cfg(feature = "verif")] crate::verif::tick(123);
                                 new_syll.segments.push_front(old_syll.segments.pop_back().unwrap());
                             }
 
@@ -1504,6 +1528,7 @@ impl SubRule {
                                 new_syll.tone = old_syll.tone;
 
                                 while old_syll.segments.len() > sp.seg_index {
+                                    #[cfg(feature = "verif")] crate::verif::tick(124);
                                     new_syll.segments.push_front(old_syll.segments.pop_back().unwrap());
                                 }
 
@@ -1622,6 +1647,7 @@ impl SubRule {
                                                         new_syll.tone = old_syll.tone;
 
                                                         while old_syll.segments.len() > sp.seg_index {
+                                                            #[cfg(feature = "verif")] crate::verif::tick(125);
                                                             new_syll.segments.push_front(old_syll.segments.pop_back().unwrap());
                                                         }
                                                         
@@ -1756,6 +1782,7 @@ impl SubRule {
                         let syll = res_word.syllables.get_mut(pos.syll_index).unwrap();
     
                         while syll.segments.len() > pos.seg_index {
+                            #[cfg(feature = "verif")] crate::verif::tick(126);
                             new_syll.segments.push_front(syll.segments.pop_back().unwrap());
                         }
                         res_word.syllables.insert(pos.syll_index+1, new_syll);
@@ -1786,6 +1813,7 @@ impl SubRule {
                         let syll = res_word.syllables.get_mut(pos.syll_index).expect("pos should not be out of bounds");
 
                         while syll.segments.len() > pos.seg_index {
+                            #[cfg(feature = "verif")] crate::verif::tick(127);
                             new_syll.segments.push_front(syll.segments.pop_back().unwrap());
                         }
                         res_word.syllables.insert(pos.syll_index+1, new_syll);
@@ -1817,6 +1845,7 @@ impl SubRule {
                         new_syll.tone = old_syll.tone;
     
                         while old_syll.segments.len() > pos.seg_index {
+                            #[cfg(feature = "verif")] crate::verif::tick(128);
                             new_syll.segments.push_front(old_syll.segments.pop_back().unwrap());
                         }
 
@@ -1879,6 +1908,7 @@ impl SubRule {
                                         let before_syll = res_word.syllables.get_mut(pos.syll_index).unwrap();
                                         let mut after_syll = Syllable::new();
                                         while before_syll.segments.len() > pos.seg_index {
+                                            #[cfg(feature = "verif")] crate::verif::tick(129);
                                             after_syll.segments.push_front(before_syll.segments.pop_back().unwrap());
                                         }
                                         res_word.syllables.insert(pos.syll_index+1, after_syll);
@@ -1990,6 +2020,7 @@ impl SubRule {
         let mut captures: Vec<_> = Vec::new();
 
         while word.in_bounds(cur_index) {
+            #[cfg(feature = "verif")] crate::verif::tick(130);
             if self.input_match_item(&mut captures, &mut cur_index, &mut state_index, word, &self.input)? {
                 // if we have a full match
                 if state_index > self.input.len() - 1 { 
@@ -2162,6 +2193,7 @@ impl SubRule {
         pos.increment(word);
 
         while word.in_bounds(*pos) {
+            #[cfg(feature = "verif")] crate::verif::tick(131);
             let back_pos = *pos;
             let back_state = *state_index;
             let back_alphas = self.alphas.borrow().clone();
@@ -2169,6 +2201,7 @@ impl SubRule {
 
             let mut m = true;
             while *state_index < states.len() {
+                #[cfg(feature = "verif")] crate::verif::tick(132);
                 if !self.input_match_item(captures, pos, state_index, word, states)? {
                     m = false;
                     break;
@@ -2401,6 +2434,7 @@ impl SubRule {
                 // the way we implement `long` vowels means we need to do this
                 let mut seg_length = word.seg_length_at(*pos);            
                 while seg_length > 1 {
+                    #[cfg(feature = "verif")] crate::verif::tick(133);
                     pos.increment(word);
                     seg_length -= 1;
                 }
@@ -2408,6 +2442,7 @@ impl SubRule {
             } else {
                 let mut seg_length = word.seg_length_at(*pos);            
                 while seg_length > 1 {
+                    #[cfg(feature = "verif")] crate::verif::tick(134);
                     pos.increment(word);
                     seg_length -= 1;
                 }
@@ -2418,6 +2453,7 @@ impl SubRule {
             // the way we implement `long` vowels means we need to do this
             let mut seg_length = word.seg_length_at(*pos);            
             while seg_length > 1 {
+                #[cfg(feature = "verif")] crate::verif::tick(135);
                 pos.increment(word);
                 seg_length -= 1;
             }
@@ -2426,6 +2462,7 @@ impl SubRule {
             // the way we implement `long` vowels means we need to do this
             let mut seg_length = word.seg_length_at(*pos);            
             while seg_length > 1 {
+                #[cfg(feature = "verif")] crate::verif::tick(136);
                 pos.increment(word);
                 seg_length -= 1;
             }
@@ -2494,6 +2531,7 @@ impl SubRule {
             // the way we implement `long` vowels means we need to do this
             let mut seg_length = word.seg_length_at(*pos);            
             while seg_length > 1 {
+                #[cfg(feature = "verif")] crate::verif::tick(137);
                 pos.increment(word);
                 seg_length -= 1;
             }
@@ -2502,6 +2540,7 @@ impl SubRule {
             // the way we implement `long` vowels means we need to do this
             let mut seg_length = word.seg_length_at(*pos);            
             while seg_length > 1 {
+                #[cfg(feature = "verif")] crate::verif::tick(138);
                 pos.increment(word);
                 seg_length -= 1;
             }
